@@ -93,6 +93,46 @@ fn run_one_worker(property: &str, chunk: usize, nchunks: usize, skip: u64, tag: 
     end
 }
 
+/// Re-execute one recorded case alone (`checks replay`) with a 60 s limit, twice; true = it never returned.
+pub fn confirm_hang(property: &str, case: &Value) -> bool {
+    let dir = std::env::var("VERIF_SHM_DIR").unwrap_or_else(|_| "/dev/shm".into());
+    let file = format!("{dir}/verif-hang-{}-{}.json", std::process::id(), splitmix(hash_bytes(case.to_string().as_bytes())));
+    if std::fs::write(&file, json!({"property": property, "subcheck": "non-termination", "case": case}).to_string()).is_err() {
+        return false;
+    }
+    let exe = match std::env::current_exe() {
+        Ok(e) => e,
+        Err(_) => return false,
+    };
+    let mut hung = true;
+    for _ in 0..2 {
+        let mut child = match Command::new(&exe).args(["replay", &file]).stdin(Stdio::null()).stdout(Stdio::null()).stderr(Stdio::null()).spawn() {
+            Ok(c) => c,
+            Err(_) => {
+                hung = false;
+                break;
+            },
+        };
+        let t0 = Instant::now();
+        let mut returned = false;
+        while t0.elapsed() < Duration::from_secs(60) {
+            if let Ok(Some(_)) = child.try_wait() {
+                returned = true;
+                break;
+            }
+            std::thread::sleep(Duration::from_millis(100));
+        }
+        if returned {
+            hung = false;
+            break;
+        }
+        let _ = child.kill();
+        let _ = child.wait();
+    }
+    let _ = std::fs::remove_file(&file);
+    hung
+}
+
 /// Merge a worker's partial report (same JSON shape as `Report::to_json`) into `rep`.
 pub fn merge_worker_json(rep: &mut Report, v: &Value) {
     if let Some(subs) = v["subchecks"].as_object() {
@@ -176,9 +216,23 @@ pub fn supervise(ctx: &Ctx, rep: &mut Report, tag: &str, nchunks: usize, describ
                     rep.violation("process-death", format!("worker process killed by signal {signal} while running: {msg}"), case);
                 },
                 WorkerEnd::Hung { fields, payload } => {
-                    let (msg, case) = describe(&fields, &payload);
-                    rep.notes.push(format!("WATCHDOG: no progress for 20 s in: {msg} case={case}"));
-                    ok = false;
+                    let (msg, mut case) = describe(&fields, &payload);
+                    // a stalled worker may only mean a starved machine: the single recorded call is
+                    // re-executed in a fresh process, twice, with 60 s each (it normally takes
+                    // microseconds). Only if it does not return either time it is reported.
+                    if confirm_hang(&ctx.property, &case) {
+                        if let Some(o) = case.as_object_mut() {
+                            o.insert("hang".into(), json!(true));
+                        }
+                        rep.violation(
+                            "non-termination",
+                            format!("the call does not return: worker stalled for 20 s and the single call, re-executed alone in a fresh process, did not return within 60 s (twice): {msg}"),
+                            case,
+                        );
+                    } else {
+                        rep.notes.push(format!("WATCHDOG: no progress for 20 s in: {msg} case={case} (the call returned when re-executed alone: machine starved?)"));
+                        ok = false;
+                    }
                 },
                 WorkerEnd::Infra(e) => {
                     rep.notes.push(format!("INFRA: {e}"));
